@@ -14,8 +14,8 @@ import subprocess
 
 import common
 
-CONFIGS = {"quick": ["list4", "groups2x2", "groups321", "mixed", "coupled", "twogrouped", "groups26", "sumfrac"],
-           "thorough": ["list4", "groups2x2", "groups321", "mixed", "coupled", "twogrouped", "groups26", "sumfrac", "groups4x2", "groups133"]}
+CONFIGS = {"quick": ["list4", "groups2x2", "groups321", "mixed", "coupled", "twogrouped", "groups26", "sumfrac", "labels"],
+           "thorough": ["list4", "groups2x2", "groups321", "mixed", "coupled", "twogrouped", "groups26", "sumfrac", "labels", "groups4x2", "groups133"]}
 BUDGET = {"quick": (3, 260), "thorough": (5, 6000)}  # exhaustive depth, max states per configuration
 
 
